@@ -62,7 +62,7 @@ PROPS = {
         "assumptions": ["instruction budget abstracted to one unit per input/output (the harness sets the performance counter accordingly)"],
     },
     "C09": {
-        "extra_props": ["FullCor", "FullCorExample"],
+        "extra_props": ["FullCor", "FullCorExample", "FullSys", "C13Full"],
         "spec_ops": ["c upgrade", "c hb"],
         "streams": [{"name": "sync", "quick": 160, "thorough": 3200}, {"name": "ledger", "quick": 96, "thorough": 800}],
         "rule": SYNC_RULE + " Every upgrade line carries the labelled answers of all query endpoints (info, per pool address get_utxos and get_balance, headers, synced) before and after; the specification column says they are identical.",
